@@ -141,3 +141,14 @@ Proof.
     + rewrite lenN_app. change (lenN CRLF) with 2. lia.
     + now apply shape_spec_line.
 Qed.
+
+(* the &str entry point, on character boundaries *)
+Theorem p1s_spec s : utf8_valid s = true -> is_char_boundary s (window_end s) = true ->
+  forall hd, p1s s = Ok hd <-> spec_v1 s = Some hd.
+Proof.
+  intros Hu Hb hd. rewrite <- p1_spec. destruct (entry_points_agree s Hu Hb) as (E & _). rewrite E.
+  destruct (p1s s); cbn [map_err]; split; intros H; try discriminate; now inversion H.
+Qed.
+
+Theorem p1_rejects x : spec_v1 x = None -> exists e, p1 x = Err e.
+Proof. intros H. destruct (p1 x) as [hd|e] eqn:E; [|eauto]. apply p1_spec in E. congruence. Qed.
